@@ -24,12 +24,13 @@ pub fn plans(prop: &str) -> Vec<Plan> {
         "C06" => vec![h(HProp::C06, 400_000, 8_000_000)],
         "C13" => vec![h(HProp::C13, 200_000, 4_000_000)],
         "C02" => vec![r(RProp::C02, 150_000, 4_000_000)],
-        "C08" => vec![r(RProp::C08, 300_000, 6_000_000)],
-        "C09" => vec![r(RProp::C09, 300_000, 6_000_000)],
+        "C08" => vec![r(RProp::C08, 200_000, 5_000_000)],
+        "C09" => vec![r(RProp::C09, 120_000, 3_000_000)],
         "C11" => vec![r(RProp::C11Scalar, 100_000, 2_000_000), r(RProp::C11Pair, 100_000, 2_000_000), h(HProp::C11, 100_000, 2_000_000)],
         "C14" => vec![r(RProp::C14, 400_000, 8_000_000)],
         "C17" => vec![r(RProp::C17Scalar, 150_000, 3_000_000), r(RProp::C17Pair, 150_000, 3_000_000), h(HProp::C17, 100_000, 2_000_000)],
         "C18" => vec![d(DProp::C18, false, 200_000, 4_000_000), r(RProp::C18Scalar, 50_000, 1_000_000), r(RProp::C18Pair, 50_000, 1_000_000), h(HProp::C18, 100_000, 2_000_000)],
+        "C19" => vec![Plan { scenario: Box::new(crate::drv_rayon::PScenario) as Box<dyn Scenario>, runs_quick: 60_000, runs_thorough: 1_500_000 }],
         "C20" => vec![r(RProp::C20Scalar, 100_000, 2_000_000), r(RProp::C20Pair, 100_000, 2_000_000)],
         _ => vec![],
     }
@@ -37,8 +38,11 @@ pub fn plans(prop: &str) -> Vec<Plan> {
 
 pub type ExtraFn = fn(u64, Tier) -> (Value, Vec<(Viol, Value)>);
 
-pub fn extras(_prop: &str) -> Vec<(&'static str, ExtraFn)> {
-    vec![]
+pub fn extras(prop: &str) -> Vec<(&'static str, ExtraFn)> {
+    match prop {
+        "C19" => vec![("real_pool_crosscheck", crate::drv_rayon::real_pool_crosscheck as ExtraFn)],
+        _ => vec![],
+    }
 }
 
 pub fn assumptions(prop: &str) -> Vec<&'static str> {
